@@ -703,13 +703,19 @@ func (g *GenOpts) write(t *TemplateOpts, data interface{}) error {
 func (g *GenOpts) checkTargetCollision(t *TemplateOpts, data interface{}, target string) error {
 	// identify the object by its name in the spec when it is known (x-go-name may give the same Go name
 	// to several definitions), and operation groups by their package alias
-	var name string
 	v := reflect.Indirect(reflect.ValueOf(data))
-	for _, field := range []string{"OriginalName", "PackageAlias", "Name"} {
-		if fld := v.FieldByName(field); fld.IsValid() && fld.Kind() == reflect.String && fld.String() != "" {
-			name = fld.String()
-			break
+	field := func(name string) string {
+		if fld := v.FieldByName(name); fld.IsValid() && fld.Kind() == reflect.String {
+			return fld.String()
 		}
+		return ""
+	}
+	name := field("OriginalName")
+	if name == "" {
+		name = field("Name")
+	}
+	if alias := field("PackageAlias"); alias != "" {
+		name = alias + "." + name
 	}
 	source := fmt.Sprintf("%q (template %s)", name, t.Name)
 
